@@ -59,7 +59,9 @@ Put(f, k, v) == [x \in DOMAIN f \cup {k} |-> IF x = k THEN v ELSE f[x]]
 MonInit ==
     [ spawned    |-> {},        \* tasks whose process was spawned
       nspawn     |-> EmptyFn,   \* task -> number of spawns
-      live       |-> {},        \* spawned and not yet exited (the kernel's view)
+      nexit      |-> EmptyFn,   \* task -> number of exits
+      live       |-> {},        \* tasks with a process spawned and not yet exited (the kernel's view); a task executed twice
+                                \* stays live until BOTH processes have exited
       exitst     |-> EmptyFn,   \* task -> 0 (exit 0) | >0 (non-zero / signal)
       launchfail |-> {},        \* tasks whose launch failed
       slotOf     |-> EmptyFn,   \* task -> COND_SLOT (-1 when unset)
@@ -82,6 +84,12 @@ Succeeded(C, m, t) ==
     ELSE t \in DOMAIN m.outcome /\ m.outcome[t] = "success"
 
 V(cond, name) == IF cond THEN {} ELSE {name}
+
+Count(f, t) == IF t \in DOMAIN f THEN f[t] ELSE 0
+NLive(m, t) == Count(m.nspawn, t) - Count(m.nexit, t)
+RECURSIVE SumLive(_, _)
+SumLive(m, S) == IF S = {} THEN 0 ELSE LET x == CHOOSE y \in S : TRUE IN NLive(m, x) + SumLive(m, S \ {x})
+
 
 (***************************************************************************)
 (* Events                                                                  *)
@@ -131,7 +139,7 @@ OnSpawn(C, m, t, slot, ts) ==
                          \cup V(StartOK(C, m, t), "StartAfterDepsExit0")
                          \cup V(\A r \in m.live : r \notin NTD(C, t) /\ t \notin NTD(C, r) /\ r # t,
                                 "NoOverlapWithDependency")
-                         \cup V(Cardinality(m.live) < C.jobs, "AtMostJobs")
+                         \cup V(SumLive(m, m.live) < C.jobs, "AtMostJobs")
                          \cup V(m.live = {} \/ (C.par[t] /\ \A r \in m.live : C.par[r]), "SequentialAlone")
                          \cup V(slot < 0 \/ \A r \in m.live : m.slotOf[r] # slot, "DistinctSlots")
                          \cup V(slot < C.jobs, "SlotRange")
@@ -177,7 +185,9 @@ OnSpawnFail(C, m, t) ==
                          \cup V(StartOK(C, m, t), "StartAfterDepsExit0")]
 
 OnExit(C, m, t, st) ==
-    [m EXCEPT !.live = @ \ {t}, !.exitst = Put(@, t, st)]
+    [m EXCEPT !.nexit = Put(@, t, Count(@, t) + 1),
+              !.live = IF NLive(m, t) <= 1 THEN @ \ {t} ELSE @,
+              !.exitst = Put(@, t, st)]
 
 OnSuccessLine(C, m, t) ==
     [m EXCEPT !.outcome = Put(@, t, "success"),
